@@ -34,7 +34,24 @@ Inductive c14case :=
    fieldlike = printed through printFieldStyle (fields, enum values); observed = printed order *)
 | COptions (fieldlike : bool) (opts : list (string * string)) (observed : list string)
 (* a map-valued option: its keys as printed (escaped) in any order, and in printed order *)
-| CMapEntries (keys : list string) (observed : list string).
+| CMapEntries (keys : list string) (observed : list string)
+(* package loading: the bundle as the implementation summarised each source file — per package, per file:
+   (file as named in exports, exported type names, packages depended on, names of the descriptors produced) —
+   and what the real PackageSet held for package n after compiling under SHUFFLED listings and call order:
+   Exports (name -> file), DirectDependencies (name -> that package's Exports), the keys of Files *)
+| CLoad (b : list (string * list (string * list string * list string * list string))) (n : string)
+        (exports : list (string * string)) (deps : list (string * list (string * string))) (files : list string).
+
+Definition to_srcfile (f : string * list string * list string * list string) : @srcfile unit :=
+  match f with
+  | (name, exps, ds, outs) => mkFile (bytes_of_string name) (map bytes_of_string exps) (map bytes_of_string ds) (map bytes_of_string outs) tt
+  end.
+Definition to_bundle (b : list (string * list (string * list string * list string * list string))) : @bundle unit :=
+  map (fun p => (bytes_of_string (fst p), map to_srcfile (snd p))) b.
+Definition pairs_eqb (a b : list (bytes * bytes)) : bool :=
+  list_eqb (fun x y => beqb (fst x) (fst y) && beqb (snd x) (snd y)) a b.
+Definition bpairs (l : list (string * string)) : list (bytes * bytes) :=
+  map (fun p => (bytes_of_string (fst p), bytes_of_string (snd p))) l.
 
 Definition mk_opts (opts : list (string * string)) : option (list opt) :=
   fold_right (fun fp acc =>
@@ -62,4 +79,14 @@ Definition c14_check (c : c14case) : bool :=
       end
   | CMapEntries keys observed =>
       blist_eqb (map fst (map_entries (map (fun k => (bytes_of_string k, [])) keys))) (map bytes_of_string observed)
+  | CLoad b n exports deps files =>
+      (* the model runs with the canonical orders; the implementation ran with shuffled ones *)
+      match load (fun _ _ _ => tt) (fun _ l => l) (fun _ l => l) (S (length b)) (to_bundle b) [] (bytes_of_string n) with
+      | Some (_, p) =>
+          pairs_eqb (p_exports p) (bpairs exports)
+          && list_eqb (fun x y => beqb (fst x) (fst y) && pairs_eqb (snd x) (snd y)) (p_deps p)
+                      (map (fun d => (bytes_of_string (fst d), bpairs (snd d))) deps)
+          && blist_eqb (map fst (p_files p)) (map bytes_of_string files)
+      | None => false
+      end
   end.
